@@ -70,6 +70,7 @@ Record fs_state := {
   st_fall : fallthrough;
   st_custom_err : bool;
   st_keys : list str;                                   (* the HashSet of phf keys *)
+  st_ci : list str;                                     (* spellings of case-insensitive variants seen so far (phf only) *)
   st_phf : list (str * (nat * params));
   st_arms : list fs_arm
 }.
@@ -93,14 +94,20 @@ Definition fs_params (p : vprops) (fs : fields) : res params :=
   | FNamed l => ps <- mapM named_param l ;; Ok (PNamed ps)
   end.
 
-(* one serialization of one variant (from_string.rs:121-146) *)
+(* one serialization of one variant (from_string.rs:121-151) *)
+(* a key that an EARLIER case-insensitive spelling matches is left to that spelling's guard arm (which the
+   plain match reaches first); otherwise the first insertion of a key wins *)
+Definition shadowed (k : str) (st : fs_state) : bool := existsb (fun c => eq_ic_str c k) (st_ci st).
 Definition fs_add_key (k : str) (tgt : nat * params) (st : fs_state) : fs_state :=
-  if mem_str k (st_keys st) then st else
+  if shadowed k st || mem_str k (st_keys st) then st else
   {| st_default_seen := st_default_seen st; st_fall := st_fall st; st_custom_err := st_custom_err st;
-     st_keys := k :: st_keys st; st_phf := st_phf st ++ [(k, tgt)]; st_arms := st_arms st |}.
+     st_keys := k :: st_keys st; st_ci := st_ci st; st_phf := st_phf st ++ [(k, tgt)]; st_arms := st_arms st |}.
 Definition fs_add_arm (a : fs_arm) (st : fs_state) : fs_state :=
   {| st_default_seen := st_default_seen st; st_fall := st_fall st; st_custom_err := st_custom_err st;
-     st_keys := st_keys st; st_phf := st_phf st; st_arms := st_arms st ++ [a] |}.
+     st_keys := st_keys st; st_ci := st_ci st; st_phf := st_phf st; st_arms := st_arms st ++ [a] |}.
+Definition fs_add_ci (l : str) (st : fs_state) : fs_state :=
+  {| st_default_seen := st_default_seen st; st_fall := st_fall st; st_custom_err := st_custom_err st;
+     st_keys := st_keys st; st_ci := st_ci st ++ [l]; st_phf := st_phf st; st_arms := st_arms st |}.
 
 Definition fs_serialization (use_phf ci : bool) (idx : nat) (ps : params) (st : fs_state) (lit : str) : fs_state :=
   if use_phf then
@@ -108,7 +115,7 @@ Definition fs_serialization (use_phf ci : bool) (idx : nat) (ps : params) (st : 
     if ci then
       let st2 := fs_add_key (lower_str lit) (idx, ps) st1 in
       let st3 := fs_add_key (upper_str lit) (idx, ps) st2 in
-      fs_add_arm (ArmGuard lit idx ps) st3
+      fs_add_arm (ArmGuard lit idx ps) (fs_add_ci lit st3)
     else st1
   else fs_add_arm (if ci then ArmGuard lit idx ps else ArmExact lit idx ps) st.
 
@@ -121,10 +128,10 @@ Definition fs_variant (tp : tprops) (st : fs_state) (idx : nat) (v : variant) : 
     match single_field (v_fields v) with
     | Some (SingleTuple _) =>
         Ok {| st_default_seen := true; st_fall := FDefault idx None; st_custom_err := false;
-              st_keys := st_keys st; st_phf := st_phf st; st_arms := st_arms st |}
+              st_keys := st_keys st; st_ci := st_ci st; st_phf := st_phf st; st_arms := st_arms st |}
     | Some (SingleNamed n _) =>
         Ok {| st_default_seen := true; st_fall := FDefault idx (Some n); st_custom_err := false;
-              st_keys := st_keys st; st_phf := st_phf st; st_arms := st_arms st |}
+              st_keys := st_keys st; st_ci := st_ci st; st_phf := st_phf st; st_arms := st_arms st |}
     | None => Err GDefaultField
     end
   else
@@ -148,7 +155,7 @@ Definition gen_from_str (it : item) : res from_str_code :=
           | _, _ => Err GMissingParseErr
           end ;;
   st <- fs_loop tp {| st_default_seen := false; st_fall := fst init; st_custom_err := snd init;
-                      st_keys := []; st_phf := []; st_arms := [] |} 0 vs ;;
+                      st_keys := []; st_ci := []; st_phf := []; st_arms := [] |} 0 vs ;;
   Ok {| fs_phf := st_phf st; fs_arms := st_arms st; fs_fall := st_fall st; fs_custom_err := st_custom_err st |}.
 
 (* ---- semantics of the emitted from_str ---- *)
